@@ -158,6 +158,17 @@ CHECKS = {
   note="Partial. Trusted: Coq kernel, vm_compute, regex translator, sweep harness. Handler totality is sweep-level, not a theorem.",
   technique="Rocq proof (word search / continuation search / link and diagnostic ranges valid for all documents) over a hand model validated differentially + exhaustive-position request sweep with range validation",
   design="4/C09"),
+ "C07": dict(
+  text="Coq theorems (C07/Props.v): every well-formed file of any nesting depth leaves no END error; a bare END reached while a block construct is open adds, "
+       "from every reachable state, exactly one entry naming the END line on the construct; 'declared twice' is reported exactly on a declaration that follows "
+       "a same-named one on a later line and never when names are distinct; 'procedure before CONTAINS', 'USE after IMPLICIT', 'IMPORT outside interface', "
+       "'module not found' characterised exactly; the complete invalid-parent table (procedure in a type or block construct, type in a type, ...), with a "
+       "refutation witness of the pinned rule for a type in a BLOCK (fixed). The transcribed rules are validated per scope against the implementation's own "
+       "check_* on every run. Silence on valid programs and presence/severity/line/no-unrelated-error for all 15 documented defect classes are checked by "
+       "fault seeding into generated programs.",
+  note="Partial. Trusted: Coq kernel, vm_compute, per-scope trace validation, the program generator and seeders. INTENT/dummy/type-accessibility/deferred classes are differential only.",
+  technique="Rocq proof (exact characterisation of the diagnostic decision rules for all scopes; structural classes from the scope machine) over transcriptions validated against the implementation's check_* + differential fault seeding of all 15 defect classes",
+  design="4/C07"),
 }
 NOT_YET = "not yet built in this round; see DESIGN.md section 8 (build order)"
 
